@@ -3,11 +3,22 @@ LEVEL = "model_checking"
 TECHNIQUE = "CBMC bounded symbolic execution of evdns.c query construction, output decoded by the RFC 1035 reference decoder ref/dns_ref.h"
 UNITS = ["evdns.c"]
 FUNCTIONS = ["evdns_request_data_build", "dnsname_to_labels", "evdns_request_len", "request_new"]
-BOUNDS = ""
-OUT = ""
-TEXT = ""
-NOTE = ""
-ASSUMPTIONS = []
+BOUNDS = ("evdns_request_data_build: every name of <= 6 (quick) / 8 (thorough) arbitrary octets, symbolic id/type/class/global_max_udp_size, exact-size buffer of "
+          "evdns_request_len() bytes; one label of symbolic length 0..64 + optional trailing dot (thorough); request_new: names <= 3 / 4 octets, symbolic "
+          "randomize_case + random bits + EDNS + issue-now on a constructed evdns_base (one request list, no nameserver).")
+OUT = ("search-list expansion order (search_request_new/search_make_new/search_try_next); names longer than 8 octets except the single-label 63/64 case: the "
+       "253/254/255-octet name limit could not be decided (any harness with a ~260-byte name exceeds 12 GB; by reading, dnsname_to_labels accepts name_len <= 255 "
+       "although the wire form is name_len+2, i.e. 254/255-octet names are sent with 256/257-octet wire names); transmission (evdns_request_transmit_to); "
+       "request_new's allocation uses one literal-size typed object (exactness of the query bytes is decided by the build_* obligations).")
+TEXT = ("The bytes produced by evdns_request_data_build / request_new are decoded by the RFC 1035/6891 reference decoder: header (id, RD only, QDCOUNT 1, AN/NS 0, "
+        "ARCOUNT 1 iff EDNS), one question whose name equals the requested name (modulo one trailing dot; modulo ASCII case under 0x20), type, class, OPT record iff "
+        "configured with the configured payload size, no trailing bytes, nothing written outside the buffer; names that cannot be encoded (empty label, label > 63) "
+        "must be refused and encodable ones accepted.")
+NOTE = ("Trusted: cbmc 6.11, ref/dns_ref.h, recorders in env/dns_env.h (event_assign, secure RNG = solver input with 'a transaction id other than 0xffff is "
+        "eventually drawn'). Finding C36-empty-label (fixes/): leading/consecutive dots and the name \".\" are transmitted malformed; build_all_* and "
+        "request_new_all_* fail without the patch and pass with it, build_wf_*/request_new_wf_* decide the rest with unencodable names excluded.")
+ASSUMPTIONS = ["the secure RNG eventually returns a transaction id other than 0xffff (modelled: at the first draw)",
+               "no allocation failure in request_new", "evdns_base has no nameserver and nothing inflight (nameserver_pick returns NULL)"]
 DESIGN_REF = "DESIGN.md §5 C36"
 
 def build(name, N, wf, **kw):
